@@ -50,6 +50,10 @@ func phiEdgesWhere(ph *ssa.Phi, want func([]Cond) bool) (yes, no []ssa.Value) {
 }
 
 func runC01(w *World, r *Report) {
+	hrConcurrentAllowed(w, r, "R10")
+	hrChildStrategyKeepsParent(w, r, "R10")
+	// the limiter's verdict reaches the proxy through the merge of the request actions (C07.R2)
+	r.Borrow(w, runC07, map[string]string{"R2": "R10"})
 	hrQuotaTrie(w, r, "R10")
 	hrGetCountFromContext(w, r, "R9")
 	hrGetQuotaByID(w, r, "R8")
